@@ -38,7 +38,13 @@ fn optimize_stmts(
         collector.push(Statement::Not { name, operand });
       }
       Statement::Binary(Binary { name, operator, e1, e2 }) => {
-        set.insert(BindedValue::Binary(BinaryBindedValue { operator, e1, e2 }));
+        // DIV and MOD may trap: hoisting them above the branches would reorder the trap with
+        // side effects of the branches.
+        if operator != samlang_ast::hir::BinaryOperator::DIV
+          && operator != samlang_ast::hir::BinaryOperator::MOD
+        {
+          set.insert(BindedValue::Binary(BinaryBindedValue { operator, e1, e2 }));
+        }
         collector.push(Statement::Binary(Binary { name, operator, e1, e2 }));
       }
       Statement::IndexedAccess { name, type_, pointer_expression, index } => {
